@@ -21,6 +21,7 @@ def raOf : List String → Option RA
 def respOf : List String → Option (Resp × String)
   | ["neterr"] => some (.otherErr, "-")
   | ["neterr-dl"] => some (.otherErr, "-")
+  | ["hang"] => some (.ctxErr, "-")
   | ["junk"] => some (.otherErr, "-")
   | ["ok"] => some (.http 200 .none, "200")
   | ["redir", c] =>
